@@ -132,11 +132,12 @@ func (w *world) readerClassIn(d []string) string {
 	if CountIn(d, "startReadAndHandle") == 0 {
 		return "gone"
 	}
-	if CountIn(d, "bindReply", "sync.(*Mutex).Lock") > 0 {
-		return "lockwait"
-	}
+	// readDisconnected first: after a recovered panic it runs on top of the panicking frames
 	if CountIn(d, "readDisconnected", "sync.(*Mutex).Lock") > 0 || CountIn(d, "readDisconnected", "Group).Wait") > 0 {
 		return "discwait"
+	}
+	if CountIn(d, "readDisconnected") == 0 && CountIn(d, "bindReply", "sync.(*Mutex).Lock") > 0 {
+		return "lockwait"
 	}
 	if CountIn(d, "startReadAndHandle", "ReadMessage", "IO wait") > 0 {
 		return "reading"
@@ -161,6 +162,7 @@ func (w *world) closerClassIn(d []string) string {
 
 func (w *world) sample(d []string) string {
 	var cs []string
+	rc := w.readerClassIn(d)
 	for _, c := range w.calls {
 		done, cls := "pending", "none"
 		if v := c.cmd.Load(); v != nil {
@@ -178,10 +180,20 @@ func (w *world) sample(d []string) string {
 			c.ch <- cmd
 			cls = classOf(cmd.Status())
 		}
+		if rc == "discwait" && (done == "pending" || cls == "connclosed") {
+			// the cancel loop is blocked somewhere in the pending table; which of the free
+			// calls it has cancelled before blocking depends on the table's iteration order
+			cs = append(cs, VL(VS("flux")))
+			continue
+		}
 		cs = append(cs, VL(VS(done), VN(int64(len(c.ch))), VS(cls)))
 	}
-	return VL(VL(cs...), VN(int64(erpc.VerifPendingCalls(w.sess))),
-		VS(erpc.VerifStatusName(erpc.VerifSessionStatus(w.sess))), VS(w.readerClassIn(d)), VS(w.closerClassIn(d)))
+	tab := int64(erpc.VerifPendingCalls(w.sess))
+	if rc == "discwait" {
+		tab = 0
+	}
+	return VL(VL(cs...), VN(tab),
+		VS(erpc.VerifStatusName(erpc.VerifSessionStatus(w.sess))), VS(rc), VS(w.closerClassIn(d)))
 }
 
 // processed = frames the read loop has got through: accepted ones pass gate read.got, the
